@@ -10,6 +10,7 @@
 #     void   poke(1: string s),
 #     Pair   swap(1: Pair p),
 #     string risky(1: string s) throws (1: Oops e),
+#     void   guard(1: string s) throws (1: Oops e),
 #   }
 #
 from thrift.Thrift import TType, TMessageType, TApplicationException, TProcessor
@@ -64,6 +65,9 @@ class Iface(object):
         pass
 
     def risky(self, s):
+        pass
+
+    def guard(self, s):
         pass
 
 
@@ -132,6 +136,7 @@ class Processor(Iface, TProcessor):
         self._processMap["poke"] = Processor.process_poke
         self._processMap["swap"] = Processor.process_swap
         self._processMap["risky"] = Processor.process_risky
+        self._processMap["guard"] = Processor.process_guard
         self._on_message_begin = None
 
     def on_message_begin(self, func):
@@ -234,6 +239,27 @@ class Processor(Iface, TProcessor):
             msg_type = TMessageType.EXCEPTION
             result = TApplicationException(TApplicationException.INTERNAL_ERROR, 'Internal error')
         self._finish("risky", msg_type, result, seqid, oprot)
+
+    def process_guard(self, seqid, iprot, oprot):
+        args = guard_args()
+        args.read(iprot)
+        iprot.readMessageEnd()
+        result = guard_result()
+        try:
+            self._handler.guard(args.s)
+            msg_type = TMessageType.REPLY
+        except TTransport.TTransportException:
+            raise
+        except Oops as e:
+            msg_type = TMessageType.REPLY
+            result.e = e
+        except TApplicationException as ex:
+            msg_type = TMessageType.EXCEPTION
+            result = ex
+        except Exception:
+            msg_type = TMessageType.EXCEPTION
+            result = TApplicationException(TApplicationException.INTERNAL_ERROR, 'Internal error')
+        self._finish("guard", msg_type, result, seqid, oprot)
 
 # HELPER FUNCTIONS AND STRUCTURES
 
@@ -343,6 +369,34 @@ class risky_result(TBase):
 all_structs.append(risky_result)
 risky_result.thrift_spec = (
     (0, TType.STRING, 'success', 'UTF8', None, ),
+    (1, TType.STRUCT, 'e', [Oops, None], None, ),
+)
+
+
+class guard_args(TBase):
+    __slots__ = ('s',)
+
+    def __init__(self, s=None):
+        self.s = s
+
+
+all_structs.append(guard_args)
+guard_args.thrift_spec = (
+    None,
+    (1, TType.STRING, 's', 'UTF8', None, ),
+)
+
+
+class guard_result(TBase):
+    __slots__ = ('e',)
+
+    def __init__(self, e=None):
+        self.e = e
+
+
+all_structs.append(guard_result)
+guard_result.thrift_spec = (
+    None,
     (1, TType.STRUCT, 'e', [Oops, None], None, ),
 )
 fix_spec(all_structs)
